@@ -42,7 +42,7 @@ def showBody : TBody → String
   | .aggregate k lo hi b => s!"aggregate:{k},{lo}," ++ (match hi with | some h => toString h | none => "?") ++ s!",{b}"
 
 def showClass (c : PyClass) : String :=
-  s!"class {c.name} bases={joinOr c.bases "-"} ctor=" ++ (match c.ctor with | some ps => joinOr ps "-" | none => "none")
+  s!"class {c.name} bases={joinOr c.bases "-"} ctor=" ++ (match c.ctor with | some ps => joinOr ps "-" | none => "!")
 
 def render (useSpec : Bool) (s : Schema) : String :=
   if useSpec then
